@@ -155,6 +155,18 @@ reg(
     "DESIGN.md 4.4 C15",
 )
 
+reg(
+    "C05",
+    "Every (shape, element width, source layout, destination layout) of a finite family - rank 1-2 (thorough 3), all shapes over {1,2,3,4,6} up to 48 elements, "
+    "layouts none / row- and column-major / padded / gapped strides / static and dynamic offsets / tiled-strided with every 2-level factorisation and several "
+    "stride orders and gaps / dynamic outermost tiles - is lowered by the real snax-copy-to-dma and the emitted loops and DMA calls are executed on a flat "
+    "byte memory holding one unique token per source byte and poison elsewhere. Every destination element byte must hold the token of the same logical "
+    "element at the address the destination layout assigns (independent evaluator), all reads inside the source footprint, all writes inside the destination footprint.",
+    "Trusted: machines/bytesm.py (1-D/2-D DMA semantics from snax_rt.h), machines/layout.py, machines/memview.py. TSL-TSL pairs have equal tile bounds (documented precondition).",
+    "explicit enumeration of a finite input domain, execution of the emitted code on an abstract byte machine, element-wise comparison with a reference layout evaluator",
+    "DESIGN.md 4.3 C05",
+)
+
 NOT_APPLICABLE = []
 
 ALL = [f"C{i:02d}" for i in range(1, 21)]
